@@ -8,6 +8,7 @@ EXTREMES = "seq"   # worker re-labels every sixth case to the ends of the legal 
 RESTATE = "seq"    # worker adds a signature restating the one in force to every fifth case (gen.restate_signatures)
 SPLIT_WAITS = "seq"   # worker: every fifth case is built from relative messages with rests split into adjacent waits
 DEGEN = "seq"    # worker: every 37th case becomes a degenerate shape (gen.degenerate)
+REJECTED = "prefix"    # worker: every thirteenth case starts with a call the library rejects (common.apply_prefix "rejected")
 SCALE = True   # worker: every fortieth case is blown up by scale_case below
 PROP = "C08"
 MONITORS = ["split"]
